@@ -63,7 +63,38 @@ def build_algebra(config, **override):
         kw["pretty_blade"] = opts["pretty_blade"]
     if named:
         return Algebra.fromname(named, **kw)
+    form = config.get("ctor") or ctor_form(config)
+    CTOR_COUNTS[form] = CTOR_COUNTS.get(form, 0) + 1
+    if form == "ndarray" and "signature" in kw:
+        # the signature handed over as an ndarray which the caller re-uses (overwrites in place) afterwards
+        import numpy as np
+        buf = np.array(kw["signature"], dtype=int)
+        kw["signature"] = buf
+        alg = Algebra(**kw)
+        buf[:] = [(-v if v else 1) for v in buf][::-1]
+        return alg
+    if form == "replace" and "signature" in kw:
+        # derived from an algebra of another signature through the dataclass machinery
+        import dataclasses
+        sig = kw.pop("signature")
+        other = [-v for v in sig][::-1]
+        base = Algebra(signature=other, **kw)
+        # start_index and basis as the caller states them (None / empty = derive the defaults again)
+        return dataclasses.replace(base, signature=list(sig), start_index=kw.get("start_index"), basis=list(kw.get("basis") or []))
     return Algebra(**kw)
+
+
+CTOR_COUNTS = {}
+
+
+def ctor_form(config):
+    """How the algebra object is obtained -- a pure function of the config, so replays are stable and no strategy changes:
+    5 in 7 plainly, 1 in 7 from an ndarray signature that the caller overwrites afterwards, 1 in 7 via dataclasses.replace from
+    an algebra with another signature."""
+    if config.get("named") or config.get("pqr") is not None or not config.get("sig"):
+        return "plain"
+    h = (sum((i + 2) * (v + 2) for i, v in enumerate(config["sig"])) + (config.get("start") or 0) + len(config.get("basis") or ())) % 7
+    return {0: "ndarray", 1: "replace"}.get(h, "plain")
 
 
 def mk(alg, keys, values):
